@@ -81,6 +81,12 @@ CLAIMED = {
    text="Bounded model checking: twins are exactly the sufficiently separated states with identical recurrence rows (all symmetric matrices up to the bound); every state of a twin surrogate is an original state followed by its own or a twin's successor unless the series end forces a restart (all twin structures of the listed shapes, all draws); shuffle and (refined) AAFT 'true amplitudes' outputs are row-wise permutations for every permutation the RNG may return; the spectrum handed to the inverse FFT by correlated_noise_surrogates has the moduli of the forward spectrum at every frequency; the data and the memoised spectrum are unchanged after one and after two calls.",
    note="Bounds: n<=5 (6) for twins, N<=4 states for the walk, 2 series x 3 samples (1 x 3 for AAFT) and <=2 calls. The FFT itself is an environment stub (arbitrary spectrum / arbitrary inverse): the amplitude guarantee is decided up to the contract irfft(rfft(x)) = x. Statistical quality outside.",
    ref="DESIGN.md §3 C15"),
+ "C09": dict(
+   engine="P",
+   technique="proxy-value symbolic execution of the real ClimateNetwork constructor and setters (GeoNetwork/Network chain with an igraph stand-in, angular-distance kernel through Engine K, tanh uninterpreted; sorting and the quantile index by forking), z3 (LRA) per path; sat models replayed on ClimateNetwork",
+   text="Bounded model checking: for every similarity matrix of any sign up to the bound and every threshold, adjacency = [i != j and (damped) |S_ij| > theta], symmetric for symmetric input, with n_links, link_density and threshold() consistent after construction and after set_threshold sequences; for every requested density in [0,1] the realised density never exceeds the request and misses it by at most the pairs tied at the selected value, through the constructor and through set_link_density, for unit and for zero diagonals.",
+   note="Bounds: N<=3 (4 thorough for thresholds), setter sequences <=2. Exact reals; the float32 cast of the similarity matrix is erased. How subclasses compute similarities is C10.",
+   ref="DESIGN.md §3 C09"),
 }
 NA_DEFAULT = "check not built yet in this round (see DESIGN.md §6 for the planned obligation)"
 def main():
